@@ -31,7 +31,7 @@ FailedRun(t) ==
           [] cl = "update_reads_wrong_messages" -> \E i \in DOMAIN U : U[i].m \in DOMAIN c /\ AsPairs(U[i].reads) # Inputs(c, U[i].f, U[i].m)
           [] cl = "update_multiplies_a_message_twice" -> \E i \in DOMAIN U : Len(U[i].reads) # Cardinality(AsPairs(U[i].reads))
           [] cl = "update_uses_wrong_member_set" -> \E i \in DOMAIN U : U[i].m \notin DOMAIN c \/ SetOf(U[i].prods_keys) # c[U[i].m] \ {U[i].f}
-          [] cl = "update_writes_another_key" -> \E i \in DOMAIN U : U[i].wrote # <<U[i].f, U[i].m>>
+          [] cl = "update_writes_another_key" -> \E i \in DOMAIN U : U[i].wrote # <<U[i].f, U[i].m>> \/ U[i].m \notin DOMAIN c \/ <<U[i].f, U[i].m>> \notin pairs
           [] cl = "pair_never_updated" -> t.iterations > 0 /\ {<<U[i].f, U[i].m>> : i \in DOMAIN U} # pairs
           [] cl = "final_average_reads_wrong_messages" -> AsPairs(t.final_reads) # pairs \/ Len(t.final_reads) # Cardinality(pairs)
           [] cl = "update_value_not_product_of_inputs_at_phi_one" -> t.phi_kind = "one" /\ \E i \in DOMAIN U :
@@ -43,7 +43,7 @@ FailedRun(t) ==
           [] cl = "message_not_one_at_phi_zero" -> t.phi_kind = "zero" /\ \E i \in DOMAIN U : U[i].wx # 0
             \* phi = 1/2, all inputs still at the start value 1/2: the written message is the dyadic rational
             \*   sum_{a, C} Coef(a, C) * 2^-a * prod_{j in C \ f} 2^-k_j      (k_j = number of other motifs of j), over 2^K
-          [] cl = "first_update_is_not_the_exact_motif_expectation_at_phi_one_half" -> \E i \in DOMAIN U : U[i].spot /\
+          [] cl = "first_update_is_not_the_exact_motif_expectation_at_phi_one_half" -> \E i \in DOMAIN U : U[i].spot /\ U[i].m \in DOMAIN c /\ U[i].f \in c[U[i].m] /\
                    LET u == U[i]
                        mo == t.cover[CHOOSE k \in DOMAIN t.cover : t.cover[k].id = u.m]
                        E == {{mo.E[k][1], mo.E[k][2]} : k \in DOMAIN mo.E}
